@@ -1,7 +1,7 @@
 (* C12: randomized Q-SVDs: composition of orthonormal factors. *)
 From Coq Require Import Arith Lia.
 From QV Require Import CRing Sums Quat Mat QMat.
-From QVT Require Import Glue.
+From QVT Require Import Glue Proj.
 Section P.
 Variable C : CRing.
 Notation qmat := (qmat C).
@@ -18,6 +18,24 @@ Proof.
   intros HQ HA. rewrite HA at 1.
   rewrite <- (qmm_assoc C k m k n (qherm Qm) Qm C0), HQ, (qmm_id_l C k n C0). symmetry. exact HA.
 Qed.
+(* Pythagoras for the projection onto an orthonormal Q: ||A||_F^2 = ||Q^H A||_F^2 + ||A - Q Q^H A||_F^2 (any commutative
+   component ring, all shapes); the approximation A ~ Q (Q^H A) that both randomized routines factor further *)
+Theorem C12_projection_pythagoras m k n (A Qm : qmat) : meq k k (qmm m (qherm Qm) Qm) qmid ->
+  frob2 m n A = (frob2 k n (qmm m (qherm Qm) A) + frob2 m n (qmsub A (qmm k Qm (qmm m (qherm Qm) A))))%cr.
+Proof. exact (projection_pythagoras C m k n A Qm). Qed.
 End P.
+(* over the reals: the error of the projected approximation never exceeds ||A||_F *)
+From Coq Require Import Reals Lra.
+From QV Require Import CRingR.
+From QVT Require Import CauchySchwarz Norms.
+Theorem C12_error_at_most_norm m k n (A Qm : Mat.qmat RR) : meq k k (qmm m (qherm Qm) Qm) qmid ->
+  (frob2 m n (qmsub A (qmm k Qm (qmm m (qherm Qm) A))) <= frob2 m n A)%R.
+Proof.
+  intros HQ. pose proof (projection_pythagoras RR m k n A Qm HQ) as E. cbv zeta in E.
+  pose proof (frob2_nonneg k n (qmm m (qherm Qm) A)) as Hp.
+  assert (E' : frob2 m n A = (frob2 k n (qmm m (qherm Qm) A) + frob2 m n (qmsub A (qmm k Qm (qmm m (qherm Qm) A))))%R) by exact E. lra.
+Qed.
 Print Assumptions C12_orthonormal_composition.
 Print Assumptions C12_exact_on_captured_range.
+Print Assumptions C12_projection_pythagoras.
+Print Assumptions C12_error_at_most_norm.
